@@ -28,6 +28,25 @@ CHECKS = {
         note="Assumes HitEnum members are truthy. Replay-equivalence of HitEnum and the pairs is declined.",
         tech="static analysis: path enumeration with emptiness/nullness store (R-PATH) + term normal forms",
         ref="DESIGN.md section 4 C03"),
+    "C04": dict(
+        text="Static wiring/ownership rules: argparse dests and Args fields are in bijection; in the factory every component "
+             "parameter is bound to the best-matching self.args field (no literal, no exchanged or foreign field), generators "
+             "are used per pass; AlignmentSegment/ScoredAlignedPair/ScoredNotAlignedPosition/AlignmentResultRow raw "
+             "constructors are called only by their factories, segment score = sum over exactly the stored positions, no "
+             "store to positions/segmentScore outside constructors and no in-place mutation after construction; row "
+             "confidence = sum of the stored segments' scores; pair score formula; per-peak pipeline uses that peak's diagonal.",
+        note="The numerical identity Confidence = sum(...) recomputed from raw maps and |offset| <= maxPairDistance are declined.",
+        tech="static analysis: who-may-construct / who-may-write (R-EFFECT), best-name-match wiring (R-TABLE/R-ROLE), term normal forms",
+        ref="DESIGN.md section 4 C04"),
+    "C05": dict(
+        text="Static flow/term rules: every row list written to a main/first-pass/second-pass file is the result of the "
+             "one-per-query filter (per output mode, by constant-propagating the mode through the coordinator); the filter "
+             "is groupby(queryId) over sort(queryId asc) over sort(confidence desc) taking the first; every groupby over an "
+             "explicit sort uses the same key; the per-query winner is ARGMAX(confidence) with None default over all "
+             "candidates; seeds are TOPK(score, count, desc) over all peaks; 'best' mode sorts by query id.",
+        note="'Exactly one record per aligned query in best mode' and tie behaviour are declined.",
+        tech="static analysis: source->sanitiser->sink flow per mode (R-FLOW) + order-operator normal forms (R-TERM)",
+        ref="DESIGN.md section 4 C05"),
     "C07": dict(
         text="Static error-discipline rules on everything reachable from Program.__init__/run and on the XMAP reader: unpacked "
              "zip(*xs) needs a dominating non-emptiness guard, apply(...).tolist() in the readers needs an .empty guard, "
